@@ -83,7 +83,10 @@ func genC10(t *rapid.T) c10Case {
 		}
 	}
 	if rapid.Bool().Draw(t, "badDoc") {
-		c.Docs = append(c.Docs, "{\"@id\":")
+		c.Docs = append(c.Docs, pick(t, []string{"{\"@id\":", `[{"@id":5}]`,
+			// documents the indexer stumbles over (an internal failure turned into an error): the error is a return value too
+			`[{"@id":"http://x/si","@type":"http://a.ml/vocabularies/document#BaseUnitSourceInformation"}]`,
+			`[{"@id":"http://x/sm","@type":"http://a.ml/vocabularies/document-source-maps#SourceMap","http://a.ml/vocabularies/document-source-maps#lexical":[{"@id":"http://x/l"}]},{"@id":"http://x/l","http://a.ml/vocabularies/document-source-maps#element":5}]`}, "badDocText"))
 	}
 	if rapid.IntRange(0, 3).Draw(t, "badProfile") == 0 {
 		c.Profiles = append(c.Profiles, "profile: broken\nvalidations:\n  v:\n    targetClass: zz.T\n    propertyConstraints: {}\nviolation: [v]\n")
@@ -117,8 +120,18 @@ func (c *c10Case) cfg(op c10Op) repCfg {
 
 type c10Result struct {
 	err    bool
+	errMsg string // the error's text with digit runs masked (generated names and line numbers carry counters)
 	report string // canonical, date dropped
 	panic  string
+}
+
+var digitRuns = regexp.MustCompile(`[0-9]+`)
+
+func maskedErr(c call) string {
+	if c.Err == nil {
+		return ""
+	}
+	return digitRuns.ReplaceAllString(c.Err.Error(), "#")
 }
 
 func c10Run(op c10Op, c *c10Case, shared []*rego.PreparedEvalQuery) c10Result {
@@ -132,13 +145,13 @@ func c10Run(op c10Op, c *c10Case, shared []*rego.PreparedEvalQuery) c10Result {
 	case "CompileProfile":
 		q, cc := compileProfile(p)
 		if cc.failed() || q == nil {
-			return c10Result{err: true, panic: cc.Panic}
+			return c10Result{err: true, errMsg: maskedErr(cc), panic: cc.Panic}
 		}
 		return c10Result{}
 	case "CompileThenValidate":
 		q, cc := compileProfile(p)
 		if cc.failed() || q == nil {
-			return c10Result{err: true, panic: cc.Panic}
+			return c10Result{err: true, errMsg: maskedErr(cc), panic: cc.Panic}
 		}
 		r = validateCompiledFixed(q, d)
 	case "ValidateCompiled":
@@ -156,7 +169,7 @@ func c10Run(op c10Op, c *c10Case, shared []*rego.PreparedEvalQuery) c10Result {
 		})
 	}
 	if r.failed() {
-		return c10Result{err: true, panic: r.Panic}
+		return c10Result{err: true, errMsg: maskedErr(r), panic: r.Panic}
 	}
 	if op.Kind == "Validate" || op.Kind == "ValidateCompiled" {
 		return c10Result{report: dropDate(r.Report)} // these stamp time.Now()
@@ -282,6 +295,9 @@ func decideC10(orig c10Case) ev.Verdict {
 				}
 				if w.err != o.err {
 					return ev.Violation("c10-error-differs", "goroutine %d op %d %+v: error=%v alone, error=%v under concurrency (%s)", g, i, c.Goroutines[g][i], w.err, o.err, describeOps(c))
+				}
+				if w.errMsg != o.errMsg {
+					return ev.Violation("c10-error-text-differs", "goroutine %d op %d %+v: the error returned under concurrency is not the one returned alone (%s)\nalone:      %s\nconcurrent: %s", g, i, c.Goroutines[g][i], describeOps(c), trunc(w.errMsg, 600), trunc(o.errMsg, 600))
 				}
 				if w.report != o.report {
 					return ev.Violation("c10-report-differs", "goroutine %d op %d %+v: report differs from the one obtained alone (%s)\n%s", g, i, c.Goroutines[g][i], describeOps(c), firstDiff(w.report, o.report))
